@@ -10,6 +10,11 @@
 //	        garbler->evaluator bytes) are the result line.
 //	codec   real Streaming.Garble output bytes for random circuits and id maps
 //	        (incl. ids > 65535) on a fixed random tape vs the Lean model.
+//	        With `-extra upd` only programs of class upd (upd.go: element updates
+//	        inside if / else and loops) are generated, each run on every
+//	        combination of its conditions.  A program whose GC'd step list frees
+//	        a range that is still pointed at, but whose session agreed, goes to
+//	        the exposure search (expose.go).
 //	replay  one program from a file: prints both outcomes.
 package main
 
@@ -93,6 +98,40 @@ func main(a, b uint32) uint32 {
 `},
 }
 
+// updCorpus runs last in the upd mode (after the generated programs): the source of the Lean witness
+// `memoProg` (Props/C05.lean: C05_gcMemo_unsafe, C05_gcMemo_witness_now_safe)
+// on both values of its condition, and its mirror image.
+var updCorpus = []*prog{
+	{Class: "upd", GIn: []string{"0x00000001000000020000000300000004"}, EIn: []string{"100"},
+		Alt: [][2][]string{{{"0x00000007000000020000000300000004"}, {"100"}}}, Src: `package main
+func main(a [4]uint32, b uint32) ([4]uint32, uint32) {
+	var r uint32
+	if a[0] == 7 {
+		r = 1
+	} else {
+		a[1] = b
+		a[2] = 5
+		r = (b + 1) * 3
+	}
+	return a, r
+}
+`},
+	{Class: "upd", GIn: []string{"0x00000007000000020000000300000004"}, EIn: []string{"100"},
+		Alt: [][2][]string{{{"0x00000001000000020000000300000004"}, {"100"}}}, Src: `package main
+func main(a [4]uint32, b uint32) ([4]uint32, uint32) {
+	var r uint32
+	if a[0] == 7 {
+		a[1] = b
+		a[2] = 5
+		r = (b + 1) * 3
+	} else {
+		r = 1
+	}
+	return a, r
+}
+`},
+}
+
 func safeGen(r *hxlib.Rng, class string, idx int) (p *prog) {
 	defer func() {
 		if e := recover(); e != nil {
@@ -101,7 +140,11 @@ func safeGen(r *hxlib.Rng, class string, idx int) (p *prog) {
 	}()
 	if class == "collide" {
 		base := genProgram(r, []string{"alias", "mixed"}[idx%2], idx)
+		base.Parts = nil // identifiers are renamed in Src only
 		return collideProgram(r, base)
+	}
+	if class == "upd" {
+		return updProgram(r, idx)
 	}
 	return genProgram(r, class, idx)
 }
@@ -221,13 +264,37 @@ func runOracle(args []string) int {
 		oneProgram(o, cf, 1000000+k, rng.Fork(), p)
 	}
 	total := cf.N + len(corpus)
+	updOnly := false
+	for _, x := range strings.Split(cf.Extra, ",") {
+		updOnly = updOnly || x == "upd"
+	}
+	if updOnly {
+		// NewRng(seed) and NewRng(seed+1) are the same splitmix64 stream shifted
+		// by one draw; start this mode's stream from a mixed state so that
+		// VERIF_SEED=1,2,3 give unrelated programs
+		rng = hxlib.NewRng(hxlib.NewRng(cf.Seed^0x757064).U64() ^ cf.Seed<<32)
+	}
 	for i := 0; i < total; i++ {
 		r := rng.Fork()
 		if cf.Only >= 0 && i != cf.Only {
 			continue
 		}
 		var p *prog
-		if i < len(corpus) {
+		if updOnly {
+			if i >= cf.N {
+				break
+			}
+			if k := i - (cf.N - len(updCorpus)); k >= 0 {
+				p = updCorpus[k]
+				p.Feat = map[string]bool{"upd_corpus": true}
+			} else {
+				p = safeGen(r, "upd", i)
+			}
+			if p == nil {
+				o.Count("generator_panic")
+				continue
+			}
+		} else if i < len(corpus) {
 			p = corpus[i]
 			p.Feat = map[string]bool{}
 		} else if i < len(corpus)+nbig {
@@ -244,11 +311,21 @@ func runOracle(args []string) int {
 	return 0
 }
 
+func extraFlag(x string) string {
+	if x == "" {
+		return ""
+	}
+	return "-extra " + x
+}
+
 func oneProgram(o *hxlib.Out, cf *hxlib.CommonFlags, i int, r *hxlib.Rng, p *prog) {
 	o.Count("programs")
 	o.Count("class_" + p.Class)
+	if p.HasTag {
+		o.Count("upd_tagged")
+	}
 	base := map[string]any{"case": i, "seed": cf.Seed, "class": p.Class, "src": p.Src, "g_inputs": p.GIn, "e_inputs": p.EIn,
-		"rerun":      fmt.Sprintf("c05 oracle -seed %d -n %d -only %d", cf.Seed, cf.N, i),
+		"rerun":      strings.TrimSpace(fmt.Sprintf("c05 oracle -seed %d -n %d -only %d %s", cf.Seed, cf.N, i, extraFlag(cf.Extra))),
 		"replay_cmd": "cd /verif/harness && GOFLAGS=-mod=mod GOPROXY=off MPCLDIR=$VERIF_REPO go run -tags verif ./cmd/c05 replay <this replay file>   # runs only this program: streaming pair vs whole circuit"}
 	mk := func(extra map[string]any) map[string]any {
 		m := map[string]any{}
@@ -404,6 +481,52 @@ func oneProgram(o *hxlib.Out, cf *hxlib.CommonFlags, i int, r *hxlib.Rng, p *pro
 		o.Count("agree")
 		if len(o.Samples) < 3 {
 			o.Sample(map[string]any{"case": i, "class": p.Class, "features": featList(p.Feat), "src": p.Src, "result": g.String()})
+		}
+		// the same program on its other input vectors (class upd: every
+		// combination of its conditions)
+		tag := uint64(0)
+		tagOf := func(w *hxlib.WholeResult) {
+			if p.HasTag && p.TagOut < len(w.Res) {
+				tag |= w.Res[p.TagOut].Uint64()
+			}
+		}
+		tagOf(w)
+		for _, alt := range p.Alt {
+			o.Count("alt_vectors")
+			w2, ok, differ, inf := compareOnceW(p.Src, alt[0], alt[1], r)
+			if !ok {
+				o.Count("alt_vector_reference_unavailable")
+				continue
+			}
+			o.Count("compared")
+			tagOf(w2)
+			if differ {
+				inf["cause"], inf["early_free_kinds"], inf["early_frees"] = cause, si.kindsString(), si.UAFs
+				inf["explained_by_early_free"] = "candidate"
+				if cause == "" {
+					inf["explained_by_early_free"] = "false"
+				}
+				inf["g_inputs"], inf["e_inputs"] = alt[0], alt[1]
+				inf["found_by"] = "input vector of another combination of the program's conditions"
+				o.Count("mismatch_" + cause + "_alt_vector")
+				o.Fail("c05-stream-mismatch", mk(inf))
+				return
+			}
+			o.Count("agree")
+		}
+		if p.HasTag {
+			if tag&p.TagWant == p.TagWant {
+				o.Count("upd_all_branches_taken")
+			} else {
+				o.Count("upd_some_branch_not_taken")
+			}
+		}
+		if cause != "" {
+			o.Count("agree_despite_early_free")
+			if len(o.OracleFails) == 0 {
+				// (once a failing input is known the search adds nothing)
+				exposeEarlyFree(o, r, p, si, mk)
+			}
 		}
 		return
 	}
